@@ -13,7 +13,9 @@ RULE = ("one case = recorded operations (faults, discards, sampling outcomes, or
         "program; histories of three operations of one process whose intercepted inputs get equal-but-differently-typed "
         "arguments (1 / True / 1.0, 0 / False / 0.0, pairs of them; same or different functions; every order), saved to a "
         "file cassette and replayed in the recording process AND in another interpreter (also the last replay of ten of the "
-        "random histories); non-trivial = at least one interception or fault; distinct = distinct history")
+        "random histories); a file cassette after operations that captured a value the serializer refuses (input result / output "
+        "argument / record_data value / operation result; kind file_store, implementation only): every created recording is "
+        "fetched whole or is absent, the category lookup lists exactly the whole ones and each of them replays; non-trivial = at least one interception or fault; distinct = distinct history")
 ASSUMPTIONS = ["a cassette whose create_new_recording / abort_recording raise is outside the tolerated fault list",
                "threads: as for C04 - the methods that touch the active recording are modelled access by access "
                "(Recorder/Threads.v), any number of threads, any schedule, a locked region is one step; the program-level "
